@@ -13,7 +13,15 @@ The whole placement grid is enumerated on the real modelx and the *identity of t
                       names another space as `base`;
 
 each under edit histories of <= 2 edits (retarget, re-set in another mode, remove+add the base, add another base,
-override+un-override in the sub, delete+re-create, write_model/read_model, ItemSpace created before the edit).
+override+un-override in the sub, delete+re-create, write_model/read_model, ItemSpace created before the edit);
+
+  several derivers    the defining space derived by >= 2 spaces at once (2-3 siblings, chains of length 2-3, a
+                      sibling pair plus a sub-sub space, a diamond), each optionally with parameters; the
+                      reference assigned and RE-assigned (attribute assignment, set_ref, absref, relref; 3 modes)
+                      before / after / in between the creation of the deriving spaces, from a scalar, another
+                      target, another mode, or after deletion; then remove+add bases, another base,
+                      write_model / zip_model + read_model; observed in EVERY deriving space and its ItemSpace
+                      (see the comment above SHAPES).  This part runs first.
 
 Expected binding (from the statement only): absolute -> the original object; auto / relative -> the
 corresponding object of the deriving space when the target is the defining space or one of its cells (static),
@@ -567,6 +575,315 @@ def formula_probe(holder, bound, is_cells):
     return "formula-read", "%s.q() is %s" % (holder, bound)
 
 
+# ------------------------------------------------------------------------------------------------ several derivers
+#
+# part "multi": the defining space B (tree as above) is derived by >= 2 spaces at once - siblings, chains
+# (sub-sub spaces), a diamond - each optionally with parameters (ItemSpaces D[1]).  The reference B.r is assigned
+# and RE-assigned (attribute assignment / set_ref / absref / relref, every mode) before, after or in between the
+# creation of the deriving spaces, optionally followed by base changes and save + load (directory, zip).
+# Observed in EVERY deriving space D, direct or indirect, and in D[1]:
+#     auto / relative, target = B or a cells of B   ->  D.r is the object at the same relative path below D,
+#                                                       D[1].r the one below D[1]
+#     absolute, or target outside B's tree          ->  D.r and D[1].r are the original object
+#     the declared mode is read back unchanged in B and in every D
+# Nothing is asserted for a target below B (child space / its cells): a deriving space has no corresponding
+# object (child spaces are not derived) and the statement speaks of "the defining space itself or one of its
+# cells" only; such cases are run (the definer's own value is checked) and counted trivial.
+
+SHAPES = {
+    "sib2": (("S1", ("B",)), ("S2", ("B",))),
+    "chain2": (("S1", ("B",)), ("G1", ("S1",))),
+    "sib2+chain": (("S1", ("B",)), ("S2", ("B",)), ("G1", ("S1",))),
+    "sib2+chain-of-later": (("S1", ("B",)), ("S2", ("B",)), ("G2", ("S2",))),
+    "sib3": (("S1", ("B",)), ("S2", ("B",)), ("S3", ("B",))),
+    "chain3": (("S1", ("B",)), ("G1", ("S1",)), ("H1", ("G1",))),
+    "diamond": (("S1", ("B",)), ("S2", ("B",)), ("D1", ("S1", "S2"))),
+}
+MULTI_OPS = (("attr", "auto"), ("set_ref", "auto"), ("set_ref", "absolute"), ("set_ref", "relative"),
+             ("absref", "absolute"), ("relref", "relative"))
+OP_LINE = {"attr": "%(b)s.r = %(v)s", "set_ref": "%(b)s.set_ref('r', %(v)s, refmode=%(m)r)",
+           "absref": "%(b)s.absref(r=%(v)s)", "relref": "%(b)s.relref(r=%(v)s)"}
+CROSS = {"root": "outside-space", "root-cells": "outside-cells", "root-cells2": "outside-cells2",
+         "child": "outside-space", "child-cells": "outside-cells", "grandchild-cells": "outside-cells",
+         "outside-space": "root", "outside-cells": "root-cells", "prefix-sibling-cells": "root-cells"}
+MULTI_WHEN_SIMPLE = ("before", "after", "between", "rebased-then")
+MULTI_WHEN_RE = ("before+re", "after+re", "between+re", "after+del+re")
+MULTI_POST = ("none", "rebase-first", "rebase-last", "add-other-base", "write-read", "zip-read",
+              "rebase-last+write-read", "write-read+rebase-first")
+
+
+def shape_roles(shape):
+    """role of every deriving space: first-direct | later-direct | sub-sub | sub-sub-sub | sub-sub-two-bases"""
+    roles, depth, direct = {}, {"B": 0}, 0
+    for name, bases in SHAPES[shape]:
+        depth[name] = 1 + max(depth[b] for b in bases)
+        if "B" in bases:
+            roles[name] = "first-direct" if direct == 0 else "later-direct"
+            direct += 1
+        elif len(bases) > 1:
+            roles[name] = "sub-sub-two-bases"
+        else:
+            roles[name] = "sub-sub" if depth[name] == 2 else "sub-sub-sub"
+    return roles
+
+
+def multi_cases(thorough):
+    if thorough:
+        shapes = tuple(SHAPES)
+        places = ("top", "nested", "mixed")
+        tk = ("root", "root-cells", "child", "child-cells", "outside-space", "outside-cells", "prefix-sibling-cells")
+        froms = lambda mode: ("scalar", "cross", "retarget") + tuple("mode:" + x for x in       # noqa: E731
+                                                                  ("auto", "absolute", "relative") if x != mode)
+        whens = MULTI_WHEN_SIMPLE + MULTI_WHEN_RE
+        posts = MULTI_POST
+        items = ("no-params", "params", "item-live")
+    else:
+        shapes = ("sib2", "chain2", "sib2+chain")
+        places = ("top",)
+        tk = ("root", "root-cells", "child-cells", "outside-cells")
+        froms = lambda mode: ("scalar", "cross", "mode:" + MODE_CHANGE[mode])                   # noqa: E731
+        whens = ("before", "after", "between", "rebased-then", "before+re", "after+re")
+        posts = ("none", "rebase-first", "rebase-last", "write-read", "zip-read")
+        items = ("no-params", "item-live")
+    for shape in shapes:
+        for place in places:
+            if place != "top" and shape not in ("sib2+chain", "diamond"):
+                continue
+            for when in whens:
+                for op, mode in MULTI_OPS:
+                    for frm in (froms(mode) if when in MULTI_WHEN_RE else ("-",)):
+                        if when in ("between+re", "after+del+re") and \
+                                frm not in ("scalar", "cross", "mode:" + MODE_CHANGE[mode]):
+                            continue
+                        for t in tk:
+                            for post in posts:
+                                if place != "top" and post not in ("none", "rebase-last", "write-read"):
+                                    continue
+                                if "+" in post and shape not in ("sib2+chain", "diamond"):
+                                    continue
+                                for it in items:
+                                    if thorough:
+                                        # "params" (ItemSpaces first built at observation) differs from "item-live"
+                                        # only when no deriving space exists before the last assignment
+                                        if it == ("item-live" if when == "before" else "params"):
+                                            continue
+                                    elif (post == "write-read" and it == "no-params") or \
+                                            (post == "zip-read" and it == "item-live"):
+                                        continue        # quick: directory with parameters, zip without
+                                    yield Case(part="multi", shape=shape, place=place, when=when, op=op,
+                                               mode=mode, frm=frm, target=t, post=post, items=it)
+
+
+def multi_paths(c):
+    bpath = ("P", "B") if c.place == "nested" else ("B",)
+    dpaths = {}
+    for i, (name, _bases) in enumerate(SHAPES[c.shape]):
+        if c.place == "nested" or (c.place == "mixed" and i > 0):
+            dpaths[name] = ("Q", name)
+        else:
+            dpaths[name] = (name,)
+    return bpath, dpaths
+
+
+def multi_plan(c, T):
+    """the history as a list of steps:
+    ('derive', i) ('assign', op, mode, tkind | None for the scalar 7) ('del',) ('rebase', i) ('touch',)"""
+    n = len(SHAPES[c.shape])
+    D = [("derive", i) for i in range(n)]
+    A = ("assign", c.op, c.mode, c.target)
+    if c.frm == "scalar":
+        A0 = ("assign", c.op, c.mode, None)
+    elif c.frm == "cross":
+        A0 = ("assign", c.op, c.mode, CROSS[c.target])
+    elif c.frm == "retarget":
+        A0 = ("assign", c.op, c.mode, RETARGET[c.target])
+    elif c.frm.startswith("mode:"):
+        A0 = ("assign", "set_ref", c.frm[5:], c.target)
+    else:
+        A0 = None
+    touch = [("touch",)] if c.items == "item-live" else []
+    w = c.when
+    if w == "before":
+        steps = [A] + D
+    elif w == "after":
+        steps = D + touch + [A]
+    elif w == "between":
+        steps = D[:1] + touch + [A] + D[1:]
+    elif w == "rebased-then":
+        steps = D + [("rebase", 0)] + touch + [A]
+    elif w == "before+re":
+        steps = [A0] + D + touch + [A]
+    elif w == "after+re":
+        steps = D + [A0] + touch + [A]
+    elif w == "between+re":
+        steps = D[:1] + [A0] + D[1:] + touch + [A]
+    elif w == "after+del+re":
+        steps = D + [A0] + touch + [("del",), A]
+    else:
+        raise ValueError(w)
+    for p in (c.post.split("+") if c.post != "none" else []):
+        if p == "rebase-first":
+            steps.append(("rebase", 0))
+        elif p == "rebase-last":
+            steps.append(("rebase", n - 1))
+        else:
+            steps.append((p,))
+    return steps
+
+
+def run_multi(res, c):
+    L = Live()
+    try:
+        _run_multi(res, c, L)
+    finally:
+        L.cleanup()
+
+
+def _run_multi(res, c, L):
+    bpath, dpaths = multi_paths(c)
+    roles = shape_roles(c.shape)
+    spec = SHAPES[c.shape]
+    nested_b = len(bpath) == 2
+    pathof = dict(dpaths, B=bpath)
+    # ---- fixed part of the model (not under test: a failure here is not a statement about C10)
+    setup = ["m = mx.new_model('M')"]
+    if nested_b:
+        setup.append("P = m.new_space('P')")
+    setup += tree_lines("P" if nested_b else "m", "B", "B")
+    setup += ["X = m.new_space('X')", "X.new_cells('xf', formula=%r)" % (CELL % "xf"),
+              "X.new_cells('xg', formula=%r)" % (CELL % "xg"),
+              "B2 = %s.new_space('B2')" % ("P" if nested_b else "m"),
+              "B2.new_cells('foo', formula=%r)" % (CELL % "foo"),
+              "B.new_cells('q', formula='lambda: r')"]
+    if any(len(p) == 2 for p in dpaths.values()):
+        setup.append("Q = m.new_space('Q')")
+    for ln in setup:
+        e = L.do(ln)
+        if e is not None:
+            raise RuntimeError("setup line %r raised %r" % (ln, e))
+    T = targets_for(bpath, ("X",), bpath[:-1] + ("B2",))
+    b = expr(bpath)
+    tags0 = ["part:multi", "shape:" + c.shape, "when:" + c.when, "op:" + c.op, "mode:" + c.mode,
+             "target:" + target_class(c.target, "root"), "post:" + c.post]
+    if c.place != "top":
+        tags0.append("place:" + c.place)
+    if c.frm != "-":
+        tags0.append("from:" + (c.frm if not c.frm.startswith("mode:") else "other-mode"))
+    state = {"mode": None, "target": None}       # the reference as last assigned (target None: scalar / undefined)
+
+    def legit_refusal(mode, tkind):
+        """an edit may be refused where the statement promises nothing: no object-valued reference involved, a
+        target below the definer, or relative mode with a target that cannot be rebound"""
+        if mode is None or tkind is None:
+            return True
+        w = expected_static(mode, tkind, "root")
+        return w is None or (mode == "relative" and w != "rebind")
+
+    existing = []           # deriving spaces created so far
+    for step in multi_plan(c, T):
+        kind = step[0]
+        att_mode, att_target = state["mode"], state["target"]
+        if kind == "derive":
+            name, bases = spec[step[1]]
+            dp = dpaths[name]
+            e = L.do("%s.new_space(%r, bases=[%s])" % (expr(dp[:-1]) if len(dp) > 1 else "m", name,
+                                                       ", ".join(expr(pathof[x]) for x in bases)))
+            if e is None and c.items != "no-params":
+                e = L.do("%s.formula = 'lambda i: None'" % expr(dp))
+            existing.append(name)
+        elif kind == "assign":
+            _k, op, mode, tkind = step
+            att_mode, att_target = mode, tkind
+            v = "7" if tkind is None else expr(T[tkind][0])
+            e = L.do(OP_LINE[op] % {"b": b, "v": v, "m": mode})
+            if e is None:
+                state["mode"], state["target"] = ("auto" if op == "attr" else mode), tkind
+        elif kind == "del":
+            e = L.do("del %s.r" % b)
+            if e is None:
+                state["mode"], state["target"] = None, None
+        elif kind == "touch":
+            e = None
+            for name in existing:       # the ItemSpaces exist before the edit (building may fail: not asserted here)
+                L.do("_it = %s[1]" % expr(dpaths[name]))
+        elif kind == "rebase":
+            name, bases = spec[step[1]]
+            blist = ", ".join(expr(pathof[x]) for x in bases)
+            e = L.do("%s.remove_bases(%s)" % (expr(dpaths[name]), blist))
+            e = e or L.do("%s.add_bases(%s)" % (expr(dpaths[name]), blist))
+        elif kind == "add-other-base":
+            e = L.do("Z = m.new_space('Z')")
+            e = e or L.do("%s.add_bases(Z)" % expr(dpaths[spec[-1][0]]))
+        elif kind in ("write-read", "zip-read"):
+            if "_tmp" not in L.env:
+                L.do("import tempfile, shutil")
+                L.do("_tmp = tempfile.mkdtemp()")
+            if kind == "write-read":
+                e = L.do("mx.write_model(m, _tmp + '/model')")
+                e = e or L.do("m.close()")
+                e = e or L.do("m = mx.read_model(_tmp + '/model', name='M')")
+            else:
+                e = L.do("mx.zip_model(m, _tmp + '/model.zip')")
+                e = e or L.do("m.close()")
+                e = e or L.do("m = mx.read_model(_tmp + '/model.zip', name='M')")
+        else:
+            raise ValueError(step)
+        if e is not None:
+            legit = legit_refusal(att_mode, att_target)
+            with res.case(c.key(), nontrivial=not legit):
+                if not legit:
+                    res.fail(tags=tags0 + ["sym:edit-crash", "step:" + kind] + exc_tags(e),
+                             what="step %r of the history raised %s: %s" % (step, type(e).__name__, str(e)[:200]),
+                             script=L.retry_script(), case=c.text())
+            return
+    # ---- observe
+    mode, tkind = state["mode"], state["target"]
+    want = expected_static(mode, tkind, "root")
+    tpath, tcells = T[tkind]
+    rel = tpath[len(bpath):]
+    with res.case(c.key(), nontrivial=want is not None):
+        groups = [("definer", "static", [("definer-value", "%s.r is %s" % (b, expr(tpath))),
+                                          ("refmode", "%s._get_object('r', as_proxy=True).refmode == %r"
+                                           % (b, mode))])]
+        if want is not None:
+            for name, _bases in spec:
+                d = expr(dpaths[name])
+                bound = expr(dpaths[name] + rel) if want == "rebind" else expr(tpath)
+                groups.append((roles[name], "static",
+                               [("wrong-binding", "%s.r is %s" % (d, bound)), formula_probe(d, bound, tcells),
+                                ("refmode", "%s._get_object('r', as_proxy=True).refmode == %r" % (d, mode))]))
+                if c.items == "no-params":
+                    continue
+                it = d + "[1]"
+                ibound = (it + "".join("." + p for p in rel)) if want == "rebind" else expr(tpath)
+                if mode == "relative" and want == "original":
+                    # modelx refuses to build such an ItemSpace (explicit ValueError): "keeps denoting the original
+                    # object" is asserted only if the ItemSpace can be built
+                    try:
+                        L.ev(it + ".r")
+                    except Exception:
+                        continue
+                groups.append((roles[name], "itemspace",
+                               [("wrong-binding", "%s.r is %s" % (it, ibound)), formula_probe(it, ibound, tcells)]))
+        for which, obs, probes in groups:
+            for sym, probe in probes:
+                try:
+                    ok = bool(L.ev(probe))
+                    exc = None
+                except Exception as ex:
+                    ok, exc = False, ex
+                if not ok:
+                    res.fail(tags=tags0 + ["which:" + which, "obs:" + obs,
+                                           "sym:" + (sym if exc is None else "read-crash")]
+                             + (["items:" + c.items] if obs == "itemspace" else [])
+                             + (exc_tags(exc) if exc is not None else []),
+                             what="expected %s%s" % (probe, "" if exc is None else
+                                                     "; raised %s: %s" % (type(exc).__name__, str(exc)[:200])),
+                             script=L.script(probe), case=c.text())
+                    break           # one report per observed space
+    res.sample(c.text())
+
+
 # ------------------------------------------------------------------------------------------------ driver
 
 def work(task, sub):
@@ -577,7 +894,9 @@ def work(task, sub):
             sub.notes.append("budget ended in part " + c.part)
             return
         reset()
-        if c.part == "static":
+        if c.part == "multi":
+            run_multi(sub, c)
+        elif c.part == "static":
             run_static(sub, c)
         else:
             run_dynamic(sub, c)
@@ -586,8 +905,27 @@ def work(task, sub):
 def run(res, tier, seed):
     from c03_pool import run_parallel
     thorough = tier != "quick"
-    cases = list(static_cases(thorough)) + list(dynamic_cases(thorough))
-    res.bound = ("static derivation: 3 modes x 8 targets x definer {tree root, its child} x 5 layouts (definer / "
+    multi = list(multi_cases(thorough))        # first: the sampled / long-tail-free new part always completes
+    cases = multi + list(static_cases(thorough)) + list(dynamic_cases(thorough))
+    res.bound = ("several derivers: %d shapes of >= 2 deriving spaces (%s) x reference (re-)assigned %s x 6 (op, mode) "
+                 "pairs (attr, set_ref x 3 modes, absref, relref) x %s x %s; deriving spaces with / without "
+                 "parameters (ItemSpace [1] built before the last assignment and at observation)%s; "
+                 % ((len(SHAPES), ", ".join(SHAPES), "before / after / between the derivations, after a remove+add of "
+                     "the first deriver, re-assigned (from a scalar | inside<->outside | same-class target | each "
+                     "other mode) before+re / after+re, (from a scalar | inside<->outside | another mode) between+re / "
+                     "after+del+re",
+                     "7 targets (definer, its cells, child space, cells of a child, outside space, outside cells, "
+                     "cells of a sibling whose name extends the definer's)",
+                     "8 follow-ups (none, remove+add bases of the first / last deriver, another base, directory and "
+                     "zip save+load; for 2 shapes also base change then save+load, save+load then base change)",
+                     "; definer / derivers nested or mixed for 2 shapes x 3 follow-ups")
+                    if thorough else
+                    (3, "sib2, chain2, sib2+chain", "before / after / between the derivations, after a remove+add of "
+                     "the first deriver, re-assigned (from a scalar | inside<->outside | another mode) before+re / "
+                     "after+re", "4 targets (definer, its cells, cells of a child, outside cells)",
+                     "5 follow-ups (none, remove+add bases of the first / last deriver, directory save+load [with "
+                     "parameters], zip save+load [without])", ""))
+                 + "static derivation: 3 modes x 8 targets x definer {tree root, its child} x 5 layouts (definer / "
                  "deriver at depth 1 or 2, deriver nested under the definer's own name) x defined before / after "
                  "the sub x %d histories; ItemSpace: 3 modes x 10 targets x defining node {root, child, grandchild} "
                  "x 5 ways to the dynamic tree (own, nested root, child as root, derived then ItemSpace, base "
@@ -599,7 +937,9 @@ def run(res, tier, seed):
                 "reading the bound object.  Non-trivial: the statement fixes the binding (absolute; auto / "
                 "relative with the target the defining space, one of its cells, an object of the ItemSpace's base "
                 "tree, or an object outside); a refused definition in relative mode with an outside target is "
-                "counted trivial.  distinct = the case tuple.")
+                "counted trivial.  Several derivers: the same oracle in every deriving space D (`D.r is <object at the "
+                "same relative path below D>` / `is <original>`) and in D[1]; a target below the definer is run but "
+                "counted trivial (only the definer's own value is checked).  distinct = the case tuple.")
     res.exhaustive = True
     chunks = [cases[i:i + 40] for i in range(0, len(cases), 40)]
     run_parallel(res, work, chunks, margin=0.93)
